@@ -49,7 +49,14 @@ ASSUMPTIONS = [
     "array properties/qualifiers with reference type and keybindings with "
     "NULL values are outside the domain (pywbem rejects/asserts them)",
 ]
-SENSITIVITY = []
+SENSITIVITY = [
+    'real32 written with .7G instead of .11G -> roundtrip:string-exact:other / paramvalue:typed-value',
+    'unpack_boolean accepting only lower case -> own-xml-rejected:CIMXMLParseError:Invalid_boolean_value',
+    'QUALIFIER/QUALIFIER.DECLARATION writing TOSUBCLASS into TOINSTANCE -> roundtrip:attribute-boolean',
+    'parse_parameter_refarray forgetting ARRAYSIZE -> roundtrip:null-vs-value',
+    "text node writer not escaping '&' -> own-xml-rejected + roundtrip:string-exact:other",
+    'CIMInstanceName.tocimxml iterating sorted(keybindings) -> roundtrip:string-exact:other (order)',
+]
 
 KINDS = ['ipath', 'cpath', 'inst', 'class', 'prop', 'meth', 'param_decl',
          'param_value', 'qual', 'qualdecl', 'value']
